@@ -1,9 +1,12 @@
-// Package promx gathers the real Prometheus collectors of the server on a private registry
-// (pass-through mode: no controlled execution may be active) and flattens the samples.
+// Package promx reads the real Prometheus collectors of the server by calling Collect
+// directly (in the calling goroutine, so that a panic of the code under test is recoverable
+// and no foreign goroutine enters instrumented code) and flattens the samples.
 package promx
 
 import (
 	"fmt"
+	"regexp"
+	"reflect"
 	"sort"
 	"strings"
 
@@ -16,38 +19,55 @@ type Sample struct {
 	Labels map[string]string
 	Value  float64 // counter/gauge value, histogram sample count
 	Sum    float64 // histogram sum
+	Kind   string  // counter | gauge | histogram
 }
 
-// Gather registers c on a fresh registry and returns all samples.
-func Gather(c prometheus.Collector) ([]Sample, []*dto.MetricFamily, error) {
-	reg := prometheus.NewPedanticRegistry()
-	if err := reg.Register(c); err != nil {
-		return nil, nil, err
+var fqName = regexp.MustCompile(`fqName: "([^"]*)"`)
+
+// nameOf reads the fully-qualified name of a descriptor (an unexported string field; reading it
+// through reflection is cheap, parsing Desc.String() for every sample was not).
+func nameOf(d *prometheus.Desc) string {
+	v := reflect.ValueOf(d).Elem().FieldByName("fqName")
+	if v.IsValid() && v.Kind() == reflect.String {
+		return v.String()
 	}
-	mfs, err := reg.Gather()
-	if err != nil {
-		return nil, mfs, err
+	if mm := fqName.FindStringSubmatch(d.String()); mm != nil {
+		return mm[1]
 	}
-	var out []Sample
-	for _, mf := range mfs {
-		for _, m := range mf.Metric {
-			s := Sample{Name: mf.GetName(), Labels: map[string]string{}}
-			for _, lp := range m.Label {
-				s.Labels[lp.GetName()] = lp.GetValue()
-			}
-			switch {
-			case m.Counter != nil:
-				s.Value = m.Counter.GetValue()
-			case m.Gauge != nil:
-				s.Value = m.Gauge.GetValue()
-			case m.Histogram != nil:
-				s.Value = float64(m.Histogram.GetSampleCount())
-				s.Sum = m.Histogram.GetSampleSum()
-			}
-			out = append(out, s)
+	return ""
+}
+
+// Gather collects all samples of c. The second result is kept for API compatibility (nil).
+func Gather(c prometheus.Collector) (out []Sample, _ []*dto.MetricFamily, err error) {
+	defer func() {
+		if r := recover(); r != nil {
+			err = fmt.Errorf("collector panicked: %v", r)
 		}
+	}()
+	ch := make(chan prometheus.Metric, 4096)
+	c.Collect(ch)
+	close(ch)
+	for m := range ch {
+		var d dto.Metric
+		if werr := m.Write(&d); werr != nil {
+			return nil, nil, werr
+		}
+		s := Sample{Labels: map[string]string{}}
+		s.Name = nameOf(m.Desc())
+		for _, lp := range d.Label {
+			s.Labels[lp.GetName()] = lp.GetValue()
+		}
+		switch {
+		case d.Counter != nil:
+			s.Value, s.Kind = d.Counter.GetValue(), "counter"
+		case d.Gauge != nil:
+			s.Value, s.Kind = d.Gauge.GetValue(), "gauge"
+		case d.Histogram != nil:
+			s.Value, s.Sum, s.Kind = float64(d.Histogram.GetSampleCount()), d.Histogram.GetSampleSum(), "histogram"
+		}
+		out = append(out, s)
 	}
-	return out, mfs, nil
+	return out, nil, nil
 }
 
 // Sum adds the values of all samples of name whose labels include want.
@@ -73,8 +93,23 @@ func Sum(samples []Sample, name string, want map[string]string) float64 {
 func (s Sample) String() string {
 	var ls []string
 	for k, v := range s.Labels {
-		ls = append(ls, k+"="+v)
+		ls = append(ls, k+"="+fmt.Sprintf("%q", v))
 	}
 	sort.Strings(ls)
+	if s.Kind == "histogram" {
+		return fmt.Sprintf("%s{%s} count=%v sum=%v", s.Name, strings.Join(ls, ","), s.Value, s.Sum)
+	}
 	return fmt.Sprintf("%s{%s} %v", s.Name, strings.Join(ls, ","), s.Value)
+}
+
+// Text renders the samples the way an exposition would show them (names, label names,
+// label values, values).
+func Text(samples []Sample) string {
+	var b strings.Builder
+	sort.Slice(samples, func(i, j int) bool { return samples[i].String() < samples[j].String() })
+	for _, s := range samples {
+		b.WriteString(s.String())
+		b.WriteString("\n")
+	}
+	return b.String()
 }
